@@ -11,6 +11,7 @@ spec: FMachine (MiniFortran reference machine) + Trace_FMachine.  Call trees ker
 """
 from .. import lib_fm as F
 from .. import lib_fm_scc as S
+from ..core import MachineryError
 
 BASE = ('nested', 'twokernels', 'twocalls', 'kinds', 'vecnot')
 FSETS = [BASE + ('free',), BASE + ('free', 'sizes'), BASE + ('carry',), BASE + ('free', 'sizes', 'drvloop')]
@@ -23,8 +24,16 @@ CORPUS_PICK = {'corpus-sizes': ['hoist', 'hoist-alloc', 'pool', 'ftrptr-pad', 'd
                'corpus-passthrough': ['raw', 'pool-nocheck', 'ftrptr', 'directidx', 'ftrptr-asis', 'directidx-asis']}
 
 
+# multisize stratum: one kernel called 2-3x from the same caller (driver / nested kernel) with different size actuals
+MULTISIZE_PICK = {'multisize-drv-asc': ['pool', 'pool-nocheck', 'ftrptr-pad', 'raw', 'hoist'],
+                  'multisize-nest-asc': ['pool', 'pool-locrhs', 'directidx-pad', 'raw', 'hoist-alloc'],
+                  'multisize-both': ['pool', 'pool-nocheck', 'pool-locrhs', 'ftrptr-pad', 'directidx-pad'],
+                  'multisize-control': ['pool', 'pool-nocheck', 'directidx-pad', 'raw', 'hoist-alloc-kw']}
+CORPUS_PICK.update(MULTISIZE_PICK)
+
+
 def gen_cases(ctx, n):
-    cases = S.corpus('C38', ctx.rng)
+    cases = S.corpus('C38', ctx.rng) + S.multisize_cases(ctx.rng)
     for i in range(n):
         g = S.GenSCC(ctx.rng, FSETS[i % len(FSETS)], names='ifs' if i % 3 else 'alt')
         prog = g.program(nblocks=ctx.rng.randint(2, 4))
@@ -42,7 +51,7 @@ def run(ctx):
         cases = [(c['prog'], c['inputs'])]
         pick = {0: [c['variant']] if c.get('variant') else variants}
     else:
-        n, per = (6, 6) if ctx.quick else (40, 6)
+        n, per = (5, 6) if ctx.quick else (40, 6)
         cases = gen_cases(ctx, n)
         pick = {}
         for i, (prog, _) in enumerate(cases):
@@ -50,6 +59,19 @@ def run(ctx):
     results, fails, legal = S.behaviour_check_multi(ctx, 'tmp', cases, variants, S.transform_c38, pick=pick)
     S.report_failures_multi(ctx, 'C38', cases, results, fails, S.transform_c38, shrink=not ctx.replay,
                             budget=3 if ctx.quick else 10, shrink_all=not ctx.quick)
+    # vacuity guard: every multisize stratum must have had its reserved stack size judged against the high-water mark
+    # (spec/Trace_StackBound) for at least one pool-allocator variant
+    ms = {}
+    for r in results:
+        prog = cases[r['idx']][0]
+        if prog.get('stratum') == 'multisize' and r['idx'] in legal:
+            ms[prog['features'][0]] = {'sizes': prog['msize'],
+                                       'storage_judged': sorted(v for v, stk in r['stack'].items() if any(stk[k] for k in legal[r['idx']]))}
+    ctx.cover['multisize'] = ms
+    if not ctx.replay:
+        for tag in MULTISIZE_PICK:
+            if not any(v.startswith('pool') for v in ms.get(tag, {}).get('storage_judged', [])):
+                raise MachineryError(f'vacuity: no pool-allocator stack size was judged for stratum {tag}: {ms.get(tag)}')
     ctx.cover['programs_with_legal_inputs'] = len(legal)
     ctx.cover['variants_exercised'] = sorted({v for r in results for v in r['new']})
     ctx.cover['variant_runs_ok'] = {v: sum(1 for r in results if r['new'].get(v, ('',))[0] == 'ok') for v in variants}
@@ -64,8 +86,11 @@ def run(ctx):
         'enough storage is observed, not computed: -fcheck=bounds + AddressSanitizer on the transformed build and the pool '
         "allocator's generated `IF (stack > end) STOP` (check_bounds=True); an overrun that stays inside the allocated "
         'block of ANOTHER block index (ZSTACK(:, b+1)) is only visible through the bounds check / wrong results',
-        'the stack high-water mark itself is not printed (would require editing generated code); no FMachine-derived '
-        'StackUse<=StackSize bound is evaluated in TLC',
+        'stack high-water mark vs computed size (spec/Trace_StackBound.tla): in the multisize stratum (one kernel called 2-3x from '
+        'the same caller - driver and nested kernel - with different size actuals, largest not first / largest first as '
+        'control; all calls unconditional, all temporaries used) the transformed driver is instrumented to print ISTSZ / '
+        'J_*_STACK_SIZE and TLC requires value >= own temporaries + max over the calls, evaluated on the ORIGINAL call tree; '
+        'for other programs the clause is not evaluated (unused temporaries / conditional calls would over-demand)',
         'FtrPtr/DirectIdx: CONTIGUOUS on the explicit-shape stack dummy (rejected by gfortran, F2008 C530) is stripped by the '
         'harness in variants ftrptr/directidx; ftrptr-asis/directidx-asis judge the unmodified output on two programs',
         'Cray pointers (pool allocator) need gfortran -fcray-pointer (own compile step); no support modules are required: '
